@@ -18,10 +18,15 @@ FILES = ['src/containers/fast_vec.rs', 'src/containers/specialized/valvec32.rs',
 def run(ctx):
     fx = ctx.facts("default")
     order.use_facts(fx)
-    fixtures.run(ctx, ['state', 'taint', 'wrap', 'emptyrange', 'clear', 'batch', 'rangedep', 'pow2', 'narrowidx', 'panicsafe'])
+    fixtures.run(ctx, ['state', 'taint', 'wrap', 'emptyrange', 'clear', 'batch', 'rangedep', 'pow2', 'narrowidx', 'panicsafe', 'clearcursors'])
     # ring cursors are only ever stored wrapped; drop loops of shrinking operations are not empty by construction
     wrap.run(ctx, fx, 'src/containers/specialized/circular_queue.rs', 'containers::specialized::circular_queue::AutoGrowCircularQueue')
     # a mask wrap needs a power-of-two capacity
+    # head and tail are a pair: a clear() that rewinds one to a constant stores the other on that path too
+    for _ring in ('FixedCircularQueue', 'AutoGrowCircularQueue'):
+        wrap.clear_resets_both_cursors(ctx, fx, 'src/containers/specialized/circular_queue.rs',
+                                       'containers::specialized::circular_queue::' + _ring)
+    ctx.floor('R-CLEAR.cursors.clears', 1)
     wrap.mask_needs_power_of_two(ctx, fx, ['src/containers/specialized/circular_queue.rs', 'src/containers/specialized/circular_queue_ultrafast.rs'])
     ctx.floor('R-WRAP.pow2.structs', 1)
     # positions handed in as usize are compared before they are narrowed
@@ -62,7 +67,8 @@ def run(ctx):
         explanation="taint analysis with index-like parameters as untrusted (struct fields are trusted state) over the public "
                     "functions of the container files: every get_unchecked / pointer arithmetic / raw copy operand must be "
                     "guarded; param_refusal on accessors; state_refusal: each raw read/write in push*/pop* is dominated by a "
-                    "test of len/count/capacity (helper or field).",
+                    "test of len/count/capacity (helper or field). R-CLEAR.cursors: where clear() of a ring stores a constant into head "
+                    "(tail), a store to tail (head) dominates it or lies on every path from it to a normal return.",
         trusted_base=["rustc nightly MIR", "zfacts", "rules/refusal.py", "rules/taint.py", "rules/wrap.py", "rules/shrink.py"],
         rule_text="obligation = unchecked sink | (accessor, index parameter) | (mutator, raw effect)",
     )
